@@ -993,5 +993,92 @@ class AfterAFailedModule(object):
         return 'ok' if not vs else 'bad', vs, 3
 
 
+class TwoEditionsOfTheTypeModule(object):
+    name = 'two-editions-of-the-type-module-in-one-call'
+    describe = ('TYPES-MIB exists twice in the source: in its own file and, as another edition (enumeration numbers swapped, a TC over '
+                'Unsigned32 instead of OCTET STRING), inside the file of MATE-MIB; USER-MIB takes its types from TYPES-MIB and has '
+                'DEFVAL { up } / DEFVAL { \'0102\'H }; every request order that makes one or the other edition come first; both back '
+                'ends: the defaults of USER-MIB (and of TYPES-MIB) are read against the edition of TYPES-MIB that the call compiled')
+
+    def edition(self, n):
+        up, down = (1, 2) if n == 0 else (2, 1)
+        token = 'Unsigned32' if n == 0 else 'OCTET STRING (SIZE (2))'
+        return ('TYPES-MIB DEFINITIONS ::= BEGIN\nIMPORTS OBJECT-TYPE, Unsigned32, enterprises FROM SNMPv2-SMI TEXTUAL-CONVENTION FROM SNMPv2-TC;\n'
+                'typesRoot OBJECT IDENTIFIER ::= { enterprises 30 }\n'
+                'TStatus ::= INTEGER { up(%d), down(%d) }\n'
+                'TToken ::= TEXTUAL-CONVENTION STATUS current DESCRIPTION "d" SYNTAX %s\n'
+                'tStatus OBJECT-TYPE SYNTAX TStatus MAX-ACCESS read-write STATUS current DESCRIPTION "d" DEFVAL { up } ::= { typesRoot 1 }\n'
+                'END\n' % (up, down, token))
+
+    USER = ('USER-MIB DEFINITIONS ::= BEGIN\nIMPORTS OBJECT-TYPE, enterprises FROM SNMPv2-SMI TStatus, TToken FROM TYPES-MIB mateRoot FROM MATE-MIB;\n'
+            'uStatus OBJECT-TYPE SYNTAX TStatus MAX-ACCESS read-write STATUS current DESCRIPTION "d" DEFVAL { up } ::= { mateRoot 1 }\n'
+            'uToken OBJECT-TYPE SYNTAX TToken MAX-ACCESS read-write STATUS current DESCRIPTION "d" DEFVAL { \'0102\'H } ::= { mateRoot 2 }\n'
+            'END\n')
+    MATE = 'MATE-MIB DEFINITIONS ::= BEGIN\nIMPORTS enterprises FROM SNMPv2-SMI;\nmateRoot OBJECT IDENTIFIER ::= { enterprises 31 }\nEND\n'
+
+    def blocks(self, tier):
+        return [{'backend': b} for b in ('json', 'pysnmp')]
+
+    def cases(self, block, tier):
+        for own in (0, 1):                      # which edition sits in TYPES-MIB's own file
+            for mate_first in (0, 1):           # in MATE-MIB's file: the other edition before or after MATE-MIB
+                for req in (['USER-MIB'], ['MATE-MIB', 'USER-MIB'], ['USER-MIB', 'MATE-MIB'], ['TYPES-MIB', 'MATE-MIB', 'USER-MIB'],
+                            ['MATE-MIB', 'TYPES-MIB', 'USER-MIB']):
+                    yield {'backend': block['backend'], 'own': own, 'mate_first': mate_first, 'req': req}
+
+    def run_case(self, case):
+        texts = env.base_texts()
+        other = self.edition(1 - case['own'])
+        texts.update({'TYPES-MIB': self.edition(case['own']), 'USER-MIB': self.USER,
+                      'MATE-MIB': (self.MATE + other) if case['mate_first'] else (other + self.MATE)})
+        parser = env.shared_parser('smiV2')
+        parser.reset()
+        sig = 'C05|two-editions|%s' % case['backend']
+        res, _ = env.compile_set(texts, case['req'], codegen='json', dialect=parser)
+        parser.reset()
+        res2, written = env.compile_set(texts, case['req'], codegen=case['backend'], dialect=parser)
+        bad = [m for m in ('TYPES-MIB', 'USER-MIB', 'MATE-MIB') if res2.get(m) != 'compiled' or res.get(m) != 'compiled']
+        if bad:
+            return 'notcompiled', [('%s|not-compiled' % sig, '%s: %r' % (bad[0], getattr(res2.get(bad[0]), 'error', None)))], 2
+        # which edition was compiled: read it off the JSON document of TYPES-MIB (same call shape, JSON back end)
+        _, wj = env.compile_set(texts, case['req'], codegen='json', dialect=parser)
+        tdoc = json.loads(wj['TYPES-MIB'])
+        enum = (tdoc.get('TStatus', {}).get('type', {}).get('constraints', {}) or {}).get('enumeration', {})
+        compiled_edition = 0 if enum.get('up') == 1 else 1
+        want_up = 1 if compiled_edition == 0 else 2
+        vs = []
+        if case['backend'] == 'json':
+            udoc = json.loads(written['USER-MIB'])
+            for mod, doc, sym in (('USER-MIB', udoc, 'uStatus'), ('TYPES-MIB', json.loads(written['TYPES-MIB']), 'tStatus')):
+                d = (doc.get(sym, {}).get('default') or {}).get('default') or {}
+                got = d.get('number', enum.get(d.get('value')))
+                if d.get('format') != 'enum' or got != want_up:
+                    vs.append(('%s|enum-default-of-another-edition' % sig, '%s::%s DEFVAL { up }: %r, the compiled TYPES-MIB says up(%d)' % (mod, sym, d, want_up)))
+            d = (udoc.get('uToken', {}).get('default') or {}).get('default') or {}
+            if compiled_edition == 0 and not (d.get('format') == 'decimal' and d.get('value') == 258):
+                vs.append(('%s|hex-default-of-another-edition' % sig, "uToken DEFVAL { '0102'H } over Unsigned32: %r" % (d,)))
+            if compiled_edition == 1 and d.get('format') != 'hex':
+                vs.append(('%s|hex-default-of-another-edition' % sig, "uToken DEFVAL { '0102'H } over OCTET STRING: %r" % (d,)))
+        else:
+            b = pysnmp_rec.RecBuilder()
+            err = None
+            for m in ('MATE-MIB', 'TYPES-MIB', 'USER-MIB'):
+                if not err:
+                    ns, err = pysnmp_rec.run_module(written[m], b)
+            if err:
+                vs.append(('%s|does-not-execute|%s' % (sig, err.split(':')[0]), err[:300]))
+            else:
+                cls = pysnmp_rec.syntax_of(ns.get('uStatus'))
+                got = pysnmp_denotation(cls, 'enum', {'up': want_up, 'down': 3 - want_up})
+                if got != ('int', want_up):
+                    vs.append(('%s|enum-default-of-another-edition' % sig, 'uStatus: %r, the compiled TYPES-MIB says up(%d)' % (got, want_up)))
+                cls = pysnmp_rec.syntax_of(ns.get('uToken'))
+                got = pysnmp_denotation(cls, 'int' if compiled_edition == 0 else 'octets', None)
+                want = ('int', 258) if compiled_edition == 0 else ('octets', b'\x01\x02')
+                if got != want:
+                    vs.append(('%s|hex-default-of-another-edition' % sig, 'uToken: %r, expected %r' % (got, want)))
+        return 'edition-%d' % compiled_edition, vs, 3
+
+
 FAMILIES = [Refinements(), Defaults(), SameNamedTypes(), RefinedChains(), ShoutedNames(), DefaultsFromFiles(), ImportedNamesakes(),
-            OddRefinementsWithDefaults(), LongChains(), AfterAFailedModule()]
+            OddRefinementsWithDefaults(), LongChains(), AfterAFailedModule(), TwoEditionsOfTheTypeModule()]
